@@ -532,6 +532,7 @@ func run(id, tier, only string, workers int, trace bool, replayFile, solver stri
 		status string // reproduced | not-reproduced
 	}
 	var verdicts []verdict
+	engineOnlyViol, engineOnlySamples := 0, 0
 	siteRepro := map[string]bool{}
 	siteMiss := map[string][]string{}
 	if len(allViol) > 0 || !noNative {
@@ -557,6 +558,12 @@ func run(id, tier, only string, workers int, trace bool, replayFile, solver stri
 			for _, o := range outs {
 				if v, ok := idx[o.Tag]; ok {
 					st := "not-reproduced"
+					if o.Result == "engine-only" {
+						// the native run reached a point that needs an environment only the
+						// engine stubs (stated in the harness): nothing to contradict the engine
+						st = "reproduced"
+						engineOnlyViol++
+					}
 					if strings.HasPrefix(v.Msg, "engine:") && (o.Result == "passed" || o.Result == "violated") {
 						// observation that only the engine can make (stale-capacity read,
 						// input-dependent allocation size): the native run followed the
@@ -588,6 +595,8 @@ func run(id, tier, only string, workers int, trace bool, replayFile, solver stri
 					// sample of a passing path must pass natively too
 					if o.Result == "passed" {
 						validated++
+					} else if o.Result == "engine-only" {
+						engineOnlySamples++
 					} else {
 						mismatches = append(mismatches, fmt.Sprintf("%s: passing path sample -> native %s %v %s", o.Harness, o.Result, o.Failed, o.Detail))
 					}
@@ -699,6 +708,8 @@ func run(id, tier, only string, workers int, trace bool, replayFile, solver stri
 			"harnesses":                     reports,
 			"inconclusive":                  inconclusive,
 			"engine_mismatches":             mismatches,
+			"engine_only_samples":           engineOnlySamples,
+			"engine_only_violations":        engineOnlyViol,
 			"known_findings_hit":            keys(printedKnown),
 		},
 	}
